@@ -12,6 +12,7 @@ import (
 	"path/filepath"
 	"strconv"
 	"strings"
+	"sync"
 
 	pingv1 "github.com/bufbuild/connect-go/internal/gen/connect/ping/v1"
 	"google.golang.org/protobuf/proto"
@@ -43,6 +44,7 @@ type genScenario struct {
 	Golden     bool         `json:"golden"`
 	Build      bool         `json:"build"`
 	Sibling    bool         `json:"sibling"`
+	Msgs       bool         `json:"msgs"` // methods use messages of this file: the output imports the file's own Go package
 }
 
 func init() { families["gen"] = runGen }
@@ -227,6 +229,15 @@ func runGen(raw json.RawMessage, seed int64, rec *Rec) {
 	if s.Pkg != "" {
 		fd.Package = proto.String(s.Pkg)
 	}
+	inType, outType := ".google.protobuf.Empty", ".google.protobuf.Empty"
+	if s.Msgs {
+		fd.MessageType = []*descriptorpb.DescriptorProto{{Name: proto.String("Req")}, {Name: proto.String("Res")}}
+		prefix := "."
+		if s.Pkg != "" {
+			prefix = "." + s.Pkg + "."
+		}
+		inType, outType = prefix+"Req", prefix+"Res"
+	}
 	for _, sv := range s.Services {
 		sd := &descriptorpb.ServiceDescriptorProto{Name: proto.String(sv.Name)}
 		if s.Deprecated {
@@ -234,7 +245,7 @@ func runGen(raw json.RawMessage, seed int64, rec *Rec) {
 		}
 		for _, m := range sv.Methods {
 			md := &descriptorpb.MethodDescriptorProto{Name: proto.String(m.Name),
-				InputType: proto.String(".google.protobuf.Empty"), OutputType: proto.String(".google.protobuf.Empty")}
+				InputType: proto.String(inType), OutputType: proto.String(outType)}
 			if m.Kind == "client" || m.Kind == "bidi" {
 				md.ClientStreaming = proto.Bool(true)
 			}
@@ -311,6 +322,10 @@ func runGen(raw json.RawMessage, seed int64, rec *Rec) {
 		}
 		services = append(services, extract(file)...)
 		if s.Build {
+			if s.Msgs {
+				// what protoc-gen-go would have written for the file's messages, as far as type-checking goes
+				ensureMessageStub(s.GoPkg)
+			}
 			dir := filepath.Join(os.Getenv("VERIF_GEN_ROOT"), fmt.Sprintf("s%d", s.Tid))
 			_ = os.MkdirAll(dir, 0o755)
 			_ = os.WriteFile(filepath.Join(dir, "x.connect.go"), []byte(f.GetContent()), 0o644)
@@ -341,4 +356,26 @@ func stripComments(src string) string {
 		sb.WriteByte('\n')
 	}
 	return sb.String()
+}
+
+var stubMu sync.Mutex
+
+// ensureMessageStub writes a Go package with the types Req and Res at the import path of goPkg ("path" or "path;name").
+func ensureMessageStub(goPkg string) {
+	stubMu.Lock()
+	defer stubMu.Unlock()
+	path, name := goPkg, ""
+	if i := strings.Index(goPkg, ";"); i >= 0 {
+		path, name = goPkg[:i], goPkg[i+1:]
+	}
+	if name == "" {
+		name = path[strings.LastIndex(path, "/")+1:]
+	}
+	dir := filepath.Join(os.Getenv("VERIF_GEN_ROOT"), strings.TrimPrefix(path, "example.com/gen/"))
+	file := filepath.Join(dir, "stub.go")
+	if _, err := os.Stat(file); err == nil {
+		return
+	}
+	_ = os.MkdirAll(dir, 0o755)
+	_ = os.WriteFile(file, []byte("package "+name+"\n\ntype Req struct{}\n\ntype Res struct{}\n"), 0o644)
 }
